@@ -8,7 +8,7 @@ VERIF = os.path.dirname(os.path.dirname(os.path.abspath(__file__)))
 WRAP_NOTE = ("Exhaustive only within the stated constants (2-4 processes, limit 1-2, backlog <= 3, a few ticks); schedule points exist only at the gates "
              "(delegate Acquire entry/exit, delegate completion exit, queue.afterPush, block.childStart); testing/synctest's virtual clock (exact, urgent timers); "
              "TLC 1.8 and the CommunityModules Json module are trusted.")
-WRAP_TECH = ("implementation-shaped TLA+ models (spec/Blocking.tla, spec/QueueBlocking.tla) model-checked by TLC against the contract invariants; every transition of "
+WRAP_TECH = ("implementation-shaped TLA+ models (spec/Blocking.tla, spec/QueueBlocking.tla) model-checked by TLC against the contract invariants (and, for C10 / C13 / C19, temporal properties under fairness); every transition of "
              "their state graphs replayed on the real limiters through gates inside a synctest bubble; recorded executions validated by TLC against the contract spec/WrapperTrace.tla")
 
 LIM_NOTE = ("Sequential histories for the deterministic contracts; exhaustive graph part uses window size 10 (the code's minimum), ages <= 2 ticks, one or two window "
@@ -41,7 +41,7 @@ CHECKS = {
         note="Bounded constants in the exhaustive part (3 partition objects, quarters, limits 1..4, <=5-7 tokens); dyadic fractions so float rounding cannot differ; sequential drivers (the strategy serialises calls behind one mutex)."),
     "C10": dict(
         technique=WRAP_TECH,
-        text="TLC checks NoLostWakeup (no caller asleep while capacity is free in a stable state) and TerminalAllServed on the implementation-shaped models of the blocking, deadline and queue limiters for every interleaving of 2-4 callers with releases, timers and cancellations; the as-delivered designs are kept as negative configurations that must violate it. Every transition of those graphs is then forced on the real code (gates + virtual clock) and the recorded executions are accepted or rejected by the contract.",
+        text="TLC checks NoLostWakeup (no caller asleep while capacity is free in a stable state) and TerminalAllServed on the implementation-shaped models of the blocking, deadline and queue limiters for every interleaving of 2-4 callers with releases, timers and cancellations; the as-delivered designs are kept as negative configurations that must violate it. Every transition of those graphs is then forced on the real code (gates + virtual clock) and the recorded executions are accepted or rejected by the contract. The same as a temporal property: under weak fairness of the library's own steps only (LiveSpec), a caller asleep while capacity is free leads to it being woken or the capacity taken (WakeUp), and with arrivals and completions fair every caller is served (ServeSpec, AllServed); the as-delivered designs violate WakeUp. An unjustified refusal is reported and the execution is judged on, so that a sleeper it leaves behind is seen too.",
         ref="5 C10", note=WRAP_NOTE),
     "C11": dict(
         technique=WRAP_TECH + "; free-running seeded scenarios over every constructor (configuration, defaults, deprecated constructors, pools)",
@@ -49,11 +49,11 @@ CHECKS = {
         ref="5 C11", note=WRAP_NOTE),
     "C12": dict(
         technique=WRAP_TECH,
-        text="TLC checks BacklogBounded and BacklogExact (backlog = callers blocked, in stable states) on the queue model including hand-offs racing with time-outs and cancellations; the contract checks the reported queue_size gauge against the callers actually blocked after every stable step of the replayed and free-running executions, and that a refusal at a full backlog takes no virtual time.",
+        text="TLC checks BacklogBounded and BacklogExact (backlog = callers blocked, in stable states) on the queue model including hand-offs racing with time-outs and cancellations; the contract checks the reported queue_size gauge against the callers actually blocked after every stable step of the replayed and free-running executions, and that a refusal at a full backlog takes no virtual time. Arrivals racing inside the attempt-and-push section (one parked there in real time, two more started) must not take the backlog over its maximum.",
         ref="5 C12", note=WRAP_NOTE),
     "C13": dict(
         technique=WRAP_TECH,
-        text="Virtual-clock bounds: TLC checks DeadlineBound, TimeoutBound, CancelBound and NoEarlyRefusal on the models with Tick allowed between any two gates; the contract rejects a caller blocked at or past its bound in a stable state (class bound) and a refusal without a reason (class early) in every recorded execution, with instants exact to the tick.",
+        text="Virtual-clock bounds: TLC checks DeadlineBound, TimeoutBound, CancelBound and NoEarlyRefusal on the models with Tick allowed between any two gates; the contract rejects a caller blocked at or past its bound in a stable state (class bound) and a refusal without a reason (class early) in every recorded execution, with instants exact to the tick. Temporal form under LiveSpec: a cancelled sleeper returns (CancelWakes), nobody sleeps past the deadline (DeadlineWakes; violated by the as-delivered design) or past a due timer (TimeoutWakes). Every other scenario context also carries a far deadline of its own.",
         ref="5 C13", note=WRAP_NOTE),
     "C04": dict(
         technique="TLA+ contract of the limit algorithms as a trace acceptor (spec/LimitTrace.tla, class bounds) validating recorded sample sequences of every algorithm bare, traced and windowed; exact TLA+ models of AIMD (spec/Aimd.tla) and of Vegas in the float-exact sub-domain (spec/VegasModel.tla) model-checked by TLC and replayed transition by transition on the real objects",
@@ -61,15 +61,15 @@ CHECKS = {
         ref="5 C04", note=ALGO_NOTE),
     "C06": dict(
         technique="exact TLA+ models (spec/Aimd.tla, spec/VegasModel.tla) model-checked by TLC (DropLowers, DropNeverRaises, DropRunReachesFloor in every reachable state) and replayed on the real objects; recorded sequences with drop runs validated by spec/LimitTrace.tla (class loss)",
-        text="AIMD's drop rule max(1, min(limit-1, floor(limit*ratio))) is the model itself: every (limit, sample class) transition for ratios 1/2, 7/8, 1 and 9/10 is executed on the real AIMDLimit and must land on the model's value. For Vegas and Gradient the contract rejects any drop sample after which the reported estimate is higher, and every recorded drop run (arbitrary prefix, then only drops at a fixed RTT) must reach the floor within a closed-form bound.",
+        text="AIMD's drop rule max(1, min(limit-1, floor(limit*ratio))) is the model itself: every (limit, sample class) transition for ratios 1/2, 7/8, 1 and 9/10 is executed on the real AIMDLimit and must land on the model's value. For Vegas and Gradient the contract rejects any drop sample after which the reported estimate is higher, and every recorded drop run (arbitrary prefix, then only drops at a fixed RTT) must reach the floor within a closed-form bound. Drop runs start both from the state a random prefix left and from the top of the range, with a baseline probe placed early in the run. Two samples issued at once on one real limit (the first parked while it emits its metrics) must leave the estimate some serial order of the two produces on identically prepared twins (Race records).",
         ref="5 C06", note=ALGO_NOTE),
     "C07": dict(
         technique="exact TLA+ models (spec/Aimd.tla, spec/VegasModel.tla: AppLimitedNeverRaises, HealthyRunRecovers in every reachable state) replayed on the real objects; recorded sequences with app-limited samples and healthy saturated runs validated by spec/LimitTrace.tla (class demand)",
-        text="No app-limited non-drop sample may raise the estimate (checked on every recorded sample of all four algorithms and, for every reachable state and every input of the bounded domain, in the Vegas model); AIMD +increment exactly on every saturated sample; Gradient at least +queue allowance per healthy non-probe sample; and from the state left by an arbitrary prefix and a drop run, a healthy saturated run must bring the estimate to within one of the ceiling within a closed-form bound (TLC: from every reachable state of the Vegas model).",
+        text="No app-limited non-drop sample may raise the estimate (checked on every recorded sample of all four algorithms and, for every reachable state and every input of the bounded domain, in the Vegas model); AIMD +increment exactly on every saturated sample; Gradient at least +queue allowance per healthy non-probe sample; and from the state left by an arbitrary prefix and a drop run, a healthy saturated run must bring the estimate to within one of the ceiling within a closed-form bound (TLC: from every reachable state of the Vegas model). Two samples issued at once on one real limit (the first parked while it emits its metrics) must leave the estimate some serial order of the two produces on identically prepared twins (Race records).",
         ref="5 C07", note=ALGO_NOTE + " Vegas probe multiplier >= 4 (see DESIGN section 7: with 1 or 2 nothing can grow below an estimate of 2, which C15's own bound forces)."),
     "C08": dict(
         technique="TLC checks Monotone on the exact Vegas model (spec/VegasModel.tla) for every reachable state and every RTT pair; recorded twin-instance experiments (identical history, jitter forced through verif accessors, last sample differing only in RTT) validated by spec/LimitTrace.tla (class monotone)",
-        text="Relational (two-run) property: for Vegas, Gradient and Gradient2, two identically prepared real instances receive a last sample with RTT lo < hi (both at or above the baseline, neither a probe): the contract rejects esthi > estlo. 45 RTT pairs around the thresholds per prepared state, 90-600 prepared states; plus the universally quantified invariant on the Vegas integer model.",
+        text="Relational (two-run) property: for Vegas, Gradient and Gradient2, two identically prepared real instances receive a last sample with RTT lo < hi (both at or above the baseline, neither a probe): the contract rejects esthi > estlo. 45 RTT pairs around the thresholds per prepared state, 90-600 prepared states; plus the universally quantified invariant on the Vegas integer model. Half of the prepared histories carry start times, and the final sample's start time is placed so that some of the compared RTTs make it complete just before an earlier completion and some after.",
         ref="5 C08", note=ALGO_NOTE),
     "C15": dict(
         technique="TLC checks BaselineIsMin on the exact Vegas model; recorded sample sequences (real random jitter) validated by spec/LimitTrace.tla (class baseline): baseline <= RTT, baseline is an RTT seen since the last reset, resets recur within the bound",
@@ -77,23 +77,23 @@ CHECKS = {
         ref="5 C15", note=ALGO_NOTE + " Baselines are compared with the float64 value of the RTT (identical below 2^53)."),
     "C16": dict(
         technique="recorded sample / registration sequences of all limit implementations validated by spec/LimitTrace.tla (class notify); exact AIMD model carries the notified value (invariant Notified) and is replayed on the real AIMDLimit",
-        text="For every listener registered (0-3, some registered late) the contract requires a call whenever the reported estimate changed and that the last value delivered equals EstimatedLimit afterwards, on every recorded sample of AIMD, Vegas, Gradient, Gradient2, bare and through the traced and windowed wrappers; the windowed wrapper must report its delegate's estimate (WindowedTrace).",
+        text="For every listener registered (0-3, some registered late) the contract requires a call whenever the reported estimate changed and that the last value delivered equals EstimatedLimit afterwards, on every recorded sample of AIMD, Vegas, Gradient, Gradient2, bare and through the traced and windowed wrappers; the windowed wrapper must report its delegate's estimate (WindowedTrace). The windowed driver moves the delegate's estimate without the wrapper in one call of ten; two samples racing with the first parked inside a listener must leave the listener's last value equal to the estimate.",
         ref="5 C16", note=ALGO_NOTE),
     "C18": dict(
         technique="TLA+ contract of the measurement primitives as a trace acceptor (spec/MeasureTrace.tla) on exactly encoded float64 bit patterns; the sample-window fold is additionally part of the Limiter contract whose full state graph is replayed on the real limiter",
-        text="Minimum = least sample since reset, single = latest, averages inside the hull of the samples seen, variance non-negative, Add's flag true whenever Get() changed, a reset instance bit-identical to a fresh twin for the same subsequent samples, and the immutable sample window's fold independent of the order of its samples - checked by TLC on every line of 360-3000 seeded sequences per run.",
+        text="Minimum = least sample since reset, single = latest, averages inside the hull of the samples seen, variance non-negative, Add's flag true whenever Get() changed, a reset instance bit-identical to a fresh twin for the same subsequent samples, and the immutable sample window's fold independent of the order of its samples - checked by TLC on every line of 360-3000 seeded sequences per run. Update is part of the sequences (the operation sees the stored value and its result is stored; minimum: offered as a sample). An Update parked inside its operation while Add / Reset / Update is called on the same instance must leave a state some serial order produces on twins (Race records).",
         ref="5 C18", note="Numerical accuracy of the floating-point primitives is not modelled (order and equality of exact bit patterns only); positive finite samples."),
     "C14": dict(
-        technique="TLA+ contract of one intercepted operation (spec/Grpc.tla); TLC enumerates the full product of inputs (GrpcMC) and every case is executed on the real interceptors with recording doubles; recorded random operation sequences validated by TLC (GrpcTrace)",
-        text="All 192 combinations of operation (unary server / unary client / RecvMsg / SendMsg) x grant x inner error x classifier answer x default-or-custom classifiers x default-or-custom limit-exceeded classifier are executed against the real interceptors with recording limiter/listener doubles and fake handler, invoker and ServerStream; the observation (limiter consulted, wrapped call run, listener method on which token, returned value / status code) must equal the contract's. 3k-20k random operations are validated in the other direction.",
+        technique="TLA+ contract of one intercepted operation (spec/Grpc.tla); TLC enumerates the full product of inputs (GrpcMC) and every case is executed on the real interceptors with recording doubles; recorded random operation sequences and full-duplex stream scenarios validated by TLC (GrpcTrace); implementation-shaped model of two operations in flight on one stream (spec/GrpcStream.tla)",
+        text="All 384 combinations of operation (unary server / unary client / RecvMsg / SendMsg) x grant x inner error x classifier answer x default-or-custom classifiers x default-or-custom limit-exceeded classifier are executed against the real interceptors with recording limiter/listener doubles and fake handler, invoker and ServerStream; the observation (limiter consulted, wrapped call run, listener method on which token, returned value / status code) must equal the contract's. 3k-20k random operations are validated in the other direction. Full duplex: one RecvMsg and one SendMsg overlapping on the same wrapped stream in four orders of entering and leaving the transport x every grant / error / classification / option combination (1 408 operations), each operation's own observation validated against the same contract; the design-level model spec/GrpcStream.tla (token in a local variable: exactly once; token parked in a per-stream field: violated) is model-checked next to it.",
         ref="5 C14", note="Interceptors are stateless, so sequences are independent operations; no network; the stream classifiers are taken as named (RecvMsg -> server stream classifier, SendMsg -> client stream classifier)."),
     "C20": dict(
         technique="implementation-shaped TLA+ model of the registries' poller life cycle (spec/Registry.tla) model-checked by TLC with the as-delivered and flag-only variants as negative configurations; recorded Start/Stop/Register/advance/sample sequences of both bundled registries on a virtual clock validated by TLC against spec/RegistryTrace.tla; emission checked through the Limiter contract (in-flight sample at the admission decision, limit gauge)",
-        text="TLC checks AtMostOnePoller, PollOnlyWhileStarted, StopTerminates (no deadlock with a poll in progress) and NoPollerAfterStop for sequential and two concurrent callers; the code as delivered (started never set) and the naive repair (flag only: deadlock) must fail. Real go-metrics and Datadog registries (statsd client writing to a buffer) are driven through seeded call sequences in a synctest bubble: polls per gauge per ticker instant, forwarding of distribution/timing/count samples to the backend metric of the right kind under the prefixed name, and a poller left after the last Stop are compared with the contract after every call.",
+        text="TLC checks AtMostOnePoller, PollOnlyWhileStarted, StopTerminates (no deadlock with a poll in progress) and NoPollerAfterStop for sequential and two concurrent callers; the code as delivered (started never set) and the naive repair (flag only: deadlock) must fail. Real go-metrics and Datadog registries (statsd client writing to a buffer) are driven through seeded call sequences in a synctest bubble: polls per gauge per ticker instant, forwarding of distribution/timing/count samples to the backend metric of the right kind under the prefixed name, and a poller left after the last Stop are compared with the contract after every call. Every processed sample of every limit algorithm (probes included) emits one RTT, one in-flight and a drop increment iff drop (LimitTrace class metrics).",
         ref="5 C20", note="Sequential callers in the recorded sequences; virtual clock; per-sample emission of the limit algorithms is covered by the limit traces."),
     "C19": dict(
         technique=WRAP_TECH + "; free-running pool scenarios (fixed and generic pools, FIFO/LIFO/random) with 'everyone is served' runs",
-        text="Never more than the limit held: the contract's atomic-gate check on every delegate attempt and every grant (black-box mode for the fixed pool). Everyone served: TLC's TerminalAllServed on the acyclic models (every maximal behaviour ends with all callers granted and completed) and, on the real pools, seeded runs with callers <= limit + backlog whose every refusal or unanswered caller is rejected (class starved).",
+        text="Never more than the limit held: the contract's atomic-gate check on every delegate attempt and every grant (black-box mode for the fixed pool). Everyone served: TLC's TerminalAllServed on the acyclic models (every maximal behaviour ends with all callers granted and completed) and, on the real pools, seeded runs with callers <= limit + backlog whose every refusal or unanswered caller is rejected (class starved). Temporal form: WakeUp under LiveSpec and AllServed under ServeSpec (weak fairness of the library's steps, of arrivals and of completions).",
         ref="5 C19", note=WRAP_NOTE),
 }
 
